@@ -245,6 +245,55 @@ fn run_case(ctx: &Ctx, model: &mut Model, rep: &mut Report, api: &str, kind: &st
     }
 }
 
+/// ONE prepared INSERT executed row after row through `execute_with_cached_plan` on A (plain single-row
+/// INSERTs on B), with ordinary DML executed on both databases BETWEEN the cached executions; COUNT(*) and
+/// the full dump are compared after every step.
+fn run_cached_interleaved(ctx: &Ctx, rep: &mut Report, kind: &str, seed: u64) {
+    let mut rng = Rng::new(seed);
+    let case = format!("bulk insert_cached {kind} interleaved {seed}");
+    let td = table_def(kind);
+    let a = Dbh::create(ctx, &format!("c43ia-{seed}"));
+    let b = Dbh::create(ctx, &format!("c43ib-{seed}"));
+    for d in [&a, &b] { d.must(&td.create_sql(true)); }
+    rep.case(Some(&case));
+    rep.count("cached_interleaved_histories");
+    let da = a.db.as_ref().unwrap();
+    let ps = match guarded(std::panic::AssertUnwindSafe(|| da.prepare("INSERT INTO t VALUES (?, ?, ?)"))) { Ok(Ok(p)) => p, _ => { rep.count("cached_interleaved_prepare_failed"); return; } };
+    let fail = |rep: &mut Report, what: &str, detail: String| rep.oracle_fail(case.clone(), detail, format!("bulk:insert_cached:{kind}:interleaved:{what}"));
+    let n = 8 + rng.below(8) as i64;
+    let mut loaded: Vec<i64> = vec![];
+    for i in 0..n {
+        let id = 100 + i * 10;
+        let row = vec![V::Int(id), V::Text(format!("r{i}")), V::Flt(i, 4)];
+        let owned: Vec<OwnedValue> = row.iter().map(to_owned).collect();
+        let ra = match guarded(std::panic::AssertUnwindSafe(|| da.execute_with_cached_plan(&ps, &owned))) { Ok(Ok(_)) => "ok".to_string(), Ok(Err(e)) => format!("err-{}", error_class(&format!("{e:#}"))), Err(_) => "panic".into() };
+        let rb = dml_class(&b.exec(&insert_sql(&row)));
+        if (ra == "ok") != rb.starts_with("ok") { fail(rep, "outcome", format!("cached execution #{i} of INSERT (id {id}): {ra} via the cached plan, {rb} via INSERT")); return; }
+        loaded.push(id);
+        // ordinary DML between the cached executions
+        if i >= 1 && rng.chance(1, 2) {
+            let sql = match rng.below(3) {
+                0 => format!("INSERT INTO t VALUES ({}, 'plain', 0.5)", -(i + 1)),
+                1 => { let v = loaded.remove(rng.below(loaded.len() as u64) as usize); format!("DELETE FROM t WHERE a = {v}") }
+                _ => format!("INSERT INTO t VALUES ({}, 'plain2', 0.25), ({}, 'plain3', 0.75)", -(100 + i), -(200 + i)),
+            };
+            let (oa, ob) = (dml_class(&a.exec(&sql)), dml_class(&b.exec(&sql)));
+            rep.count("cached_interleaved_dml");
+            if oa != ob { fail(rep, "dml-outcome", format!("`{sql}` between cached executions: {oa} on the cached-plan database, {ob} on the INSERT database")); return; }
+        }
+        match (q(&a, "SELECT COUNT(*) FROM t"), q(&b, "SELECT COUNT(*) FROM t")) {
+            (Ok(x), Ok(y)) => if x != y { fail(rep, "count", format!("after cached execution #{i}: COUNT(*) {} on the cached-plan database vs {} on the INSERT database", show_some(&x, 1), show_some(&y, 1))); return; },
+            (Err(e), Ok(_)) => { fail(rep, "count-error", format!("COUNT(*) fails: {e}")); return; }
+            _ => {}
+        }
+        match (q(&a, "SELECT * FROM t"), q(&b, "SELECT * FROM t")) {
+            (Ok(x), Ok(y)) => if !same_bag(&x, &y) { fail(rep, "dump", format!("after cached execution #{i}: {} rows on the cached-plan database vs {} on the INSERT database", x.len(), y.len())); return; },
+            (Err(e), Ok(_)) => { fail(rep, "dump-error", format!("SELECT * fails: {e}")); return; }
+            _ => {}
+        }
+    }
+}
+
 pub fn run(ctx: &Ctx) -> Report {
     let mut rep = Report::new(
         "sql_bulk",
@@ -254,7 +303,7 @@ pub fn run(ctx: &Ctx) -> Report {
          batch classes: empty, ascending keys, non-ascending keys, duplicate key inside the batch, duplicate of an existing key, NULL in a key / NOT NULL \
          column, NULL ids for AUTO_INCREMENT, load after a DELETE, big (600-3000 rows); compared in order (first difference reported): Ok/Err and row \
          count, full dump, COUNT(*), point lookups through every index, next generated id, outcome + dump after later INSERT/UPDATE/DELETE, dump after \
-         reopen. non-trivial = distinct (api, table, class, batch)",
+         reopen. Interleaved layer: one prepared INSERT executed row by row through the cached plan with ordinary INSERT / DELETE statements between the executions, COUNT(*) and dump compared after every step. non-trivial = distinct (api, table, class, batch)",
     );
     let mut model = Model::spawn(&ctx.model_bin, "sqlidx");
     for line in ctx.corpus_cases("C43") {
@@ -264,6 +313,10 @@ pub fn run(ctx: &Ctx) -> Report {
                 run_case(ctx, &mut model, &mut rep, api, kind, class, seed);
             }
         }
+    }
+    if ctx.replay.is_none() {
+        let nint = if ctx.thorough { 40 } else { 6 };
+        for k in 0..nint { for kind in ["plain", "pk"] { run_cached_interleaved(ctx, &mut rep, kind, 0xC43_0000 + k); } }
     }
     let mut rng = Rng::new(ctx.seed);
     let reps = if ctx.thorough { 12 } else { 1 };
